@@ -83,6 +83,36 @@ def case_from_tlc(obj, h, g):
     return c
 
 
+def _m(name, pre=(), rets=(), calls=(), params=0, kind="method"):
+    return {"kind": kind, "name": list(name), "pre": list(pre), "rets": list(rets), "params": params, "calls": list(calls)}
+
+
+def fixed_cases(pid, tier, seed):
+    """Regression seeds: the concrete shapes of the defects this suite found on the unchanged tree (see proposed_fixes/C18.md),
+    through the API and through the coca binary."""
+    svc = {"pkg": "p", "name": ["User", "Service"], "kind": "class", "members": [
+        _m(["s"], ["static", "public"]),                                  # binary search missed `static public`
+        _m(["t"], ["public", "static"], calls=[{"pkg": "p", "cls": "OrderUtil", "name": "getOrderName"}] * 2),
+        _m(["u"], ["final", "static", "public"], calls=[{"pkg": "p", "cls": "UserService", "name": "s"},
+                                                          {"pkg": "p", "cls": "OrderUtil", "name": "missing"}]),
+        _m(["a"], ["@Nullable", "public"], ["other"]),
+        _m(["b"], ["public", "@Nullable"], ["other"]),                    # annotation after a keyword
+        _m(["c"], ["@Override", "@Nullable", "public"], ["other"]),       # annotation after an annotation
+        _m(["d"], ["public"], ["null", "other"], params=1),               # null on an earlier path, last return wins
+        _m(["e"], ["public"], ["cmp"]),                                   # mentions null (known finding)
+        _m(["x", "Y"], ["public"], ["other"]),                            # glued head (known finding)
+        _m(["get", "Total"], ["public"], ["other"]),
+        _m(["set", "Total"], ["public"], [], params=1)]}
+    util = {"pkg": "p", "name": ["Order", "Util"], "kind": "class", "members": [
+        _m(["get", "Order", "Name"], ["public"], ["str"]),
+        _m(["find", "User", "Service"], ["public", "synchronized"], ["other"],
+           calls=[{"pkg": "p", "cls": "UserService", "name": ""}, {"pkg": "p", "cls": "UserService", "name": "a"}])]}
+    out = []
+    for via in ("api", "cli"):
+        out.append({"case": "fixed-defect-shapes-" + via, "input": {"src": "java", "via": via, "classes": [svc, util]}})
+    return out
+
+
 def nontrivial(rec):
     # at least one method that carries something the property speaks about
     for c in rec["input"]["classes"]:
